@@ -6,7 +6,7 @@
    history es, so quantifying over es quantifies over all orders of these events. *)
 From Coq Require Import String.
 From PDV Require Import lib.Base gen.Gen_C08 gen.Gen_C09 model.C08_Steps model.C08_Builder model.C09_OpCtl
-     proof.C08_BuilderProof proof.C08_JointMain proof.C09_StatusProof proof.C09_CtlProof proof.C09_LeftProof proof.C08_ListFacts proof.C09_CountProof proof.C09_StaleProof proof.C09_OwnGeneral proof.C09_Tidy proof.C09_BuilderMono
+     proof.C08_BuilderProof proof.C08_JointMain proof.C08_NjMain proof.C09_StatusProof proof.C09_CtlProof proof.C09_LeftProof proof.C08_ListFacts proof.C09_CountProof proof.C09_StaleProof proof.C09_OwnGeneral proof.C09_Tidy proof.C09_BuilderMono proof.C09_NjMono
      proof.C09_OwnProof proof.C09_Skel.
 Local Open Scope Z_scope.
 
@@ -281,6 +281,60 @@ Proof.
   - eapply builder_joint_monotone_pf; eauto.
 Qed.
 
+(* ---- the builder's NON-joint path (joint consensus disabled or unsupported) satisfies it in general as well: invariant
+        of the loop of buildStepsWithoutJointConsensus - the store of every step emitted so far has nothing pending that
+        a later step could undo (after a removal only a learner with another id may still be added there) ---- *)
+Theorem C09_builder_nonjoint_plans_monotone :
+  forall i b ss kl kr,
+    nodup_stores (peers (i_region i)) = true ->
+    is_in_joint (i_region i) = false ->
+    (exists lp, get_store_peer (i_region i) (leader (i_region i)) = Some lp /\ prole lp = Voter) ->
+    region_ids_nonzero (i_region i) = true -> (forall a, In a (b_add b) -> pid a <> 0) ->
+    prepared i = Some b -> b_use_joint b = false ->
+    NoDup (map pid (peers (i_region i)) ++ map pid (b_add b)) ->
+    build i = Built ss kl kr ->
+    monotone_from nil (i_region i) ss = true.
+Proof. exact builder_nonjoint_monotone_pf. Qed.
+
+(* ---- both paths: every plan of the builder is monotone, hence (own_steps_never_stale, builder_plan_ok) along the
+        execution of EVERY builder plan every heartbeat finds the current step safe and conf_ver not ahead of what the
+        passed steps account for.  No hypothesis on the plan is left; on the input: one peer per store, not in a joint
+        state, leader a voter, peer ids of origin and added peers non-zero and pairwise distinct (id allocator, C08) ---- *)
+Theorem C09_builder_plans_monotone :
+  forall i b ss kl kr,
+    nodup_stores (peers (i_region i)) = true ->
+    is_in_joint (i_region i) = false ->
+    (exists lp, get_store_peer (i_region i) (leader (i_region i)) = Some lp /\ prole lp = Voter) ->
+    region_ids_nonzero (i_region i) = true -> (forall a, In a (b_add b) -> pid a <> 0) ->
+    prepared i = Some b ->
+    NoDup (map pid (peers (i_region i)) ++ map pid (b_add b)) ->
+    build i = Built ss kl kr ->
+    monotone_from nil (i_region i) ss = true.
+Proof.
+  intros i b ss kl kr H1 H2 H3 H4 H5 H6 H7 H8. destruct (b_use_joint b) eqn:E.
+  - eapply builder_joint_monotone_pf; eauto.
+  - eapply builder_nonjoint_monotone_pf; eauto.
+Qed.
+
+Theorem C09_own_steps_never_stale_builder :
+  forall i b ss kl kr,
+    nodup_stores (peers (i_region i)) = true ->
+    is_in_joint (i_region i) = false ->
+    (exists lp, get_store_peer (i_region i) (leader (i_region i)) = Some lp /\ prole lp = Voter) ->
+    region_ids_nonzero (i_region i) = true -> (forall a, In a (b_add b) -> pid a <> 0) ->
+    prepared i = Some b ->
+    NoDup (map pid (peers (i_region i)) ++ map pid (b_add b)) ->
+    build i = Built ss kl kr ->
+    heartbeats_fine (conf_ver (i_region i)) nil (i_region i) ss = true.
+Proof.
+  intros i b ss kl kr H1 H2 H3 H4 H5 H6 H7 H8.
+  apply (C09_own_steps_never_stale (goal_of b)); auto.
+  - destruct (b_use_joint b) eqn:E.
+    + eapply builder_joint_plan_ok_general_pf; eauto.
+    + eapply builder_nonjoint_plan_ok_general_pf; eauto.
+  - eapply C09_builder_plans_monotone; eauto.
+Qed.
+
 (* the builder's plans satisfy the hypothesis (bounded: exhaustive for <= 3 stores; together with
    C09_own_steps_never_stale_bounded, which runs the whole controller + store loop on the same domain) *)
 Theorem C09_builder_plans_monotone_bounded :
@@ -349,5 +403,8 @@ Print Assumptions C09_op_conf_ver_changed_is_sum.
 Print Assumptions C09_tidy_plans_are_monotone.
 Print Assumptions C09_builder_joint_plans_monotone.
 Print Assumptions C09_own_steps_never_stale_joint_builder.
+Print Assumptions C09_builder_nonjoint_plans_monotone.
+Print Assumptions C09_builder_plans_monotone.
+Print Assumptions C09_own_steps_never_stale_builder.
 Print Assumptions C09_builder_plans_monotone_bounded.
 Print Assumptions C09_own_steps_never_stale_needs_monotonicity.
